@@ -43,6 +43,10 @@ def inserted(pg, prefix, n):
             out += [msg(S, "trigger", rng.choice(pg.dets), group=g), msg(S, "wait", None, group=g)]
         else:
             out.append(msg(S, "sleep", None, 0.0))
+    if out and rng.random() < 0.3:
+        # an inserted plan that reacts to a failure of one of its messages by raising its own exception
+        # (error translation): that exception, not the original one, is what the host must see
+        out = [{"op": "try", "site": S(), "body": out, "handlers": [{"exc": "Exception", "body": [{"op": "raise", "exc": "PlanError", "site": prefix + "raise"}]}]}]
     return out
 
 
@@ -169,6 +173,19 @@ def check(res):
             nxt = next((p for p in plan if p.seq > e.seq and p.d.get("mid") == hy.d["mid"] and p.d["what"] in ("resp", "thrown", "closed")), None)
             if nxt is not None and nxt.d["what"] == "resp":
                 out.append(V("inserted-message-error-swallowed", f"message #{e.d['mid']} inserted at {hy.d['site']} failed with {e.d.get('exc')} but the host received a normal response"))
+    # (5) an inserted plan that answers a failure with an exception of its own: the host sees that one
+    for e in plan:
+        if e.d["what"] == "raise" and str(e.d.get("site", "")) in ("hraise", "traise"):
+            hy = next((h for h in reversed(host_yields) if h.seq < e.seq), None)
+            if hy is None:
+                continue
+            nxt = next((p for p in plan if p.seq > e.seq and p.d.get("mid") == hy.d["mid"] and p.d["what"] in ("resp", "thrown", "closed")), None)
+            if nxt is None or nxt.d["what"] == "closed":
+                continue
+            if nxt.d["what"] == "resp":
+                out.append(V("inserted-plan-exception-swallowed", f"the plan inserted at {hy.d['site']} raised PlanError but the host received a normal response"))
+            elif nxt.d.get("exc") not in ("PlanError", "RequestAbort", "RequestStop", "FailedPause", "PlanHalt"):
+                out.append(V("inserted-plan-exception-replaced", f"the plan inserted at {hy.d['site']} answered a failure by raising PlanError, but the host was thrown {nxt.d.get('exc')} at that yield"))
     return out
 
 
